@@ -320,7 +320,9 @@ class AceGroup(AceBase, Group):
         :param items: List of Ace objects (default self.items).
         :return: Last sequence number.
         """
-        items: LUAce = kwargs.get("items") or self._items
+        items: LUAce = kwargs.get("items")
+        if items is None:
+            items = self._items
         sequence: int = int(start)
         count = len(items)
 
